@@ -721,6 +721,24 @@ theorem moduleNameClash_rejected :
     validate moduleNameClash.reverse = [code "Redefinition"] := by
   decide
 
+/-- **The attribute table of the source is the language's.** The model reads the built-in attributes from the table the translator
+    extracts (`Gen.attributes`); this theorem pins that table to the specification: five attributes, only `allow` repeatable,
+    `allow` / `compress` / `slicedFormat` take one or more arguments, `deprecated` at most one, `oneway` none; `compress` and
+    `slicedFormat` accept exactly `Args` and `Return` (as a set); only `allow` takes lint names. A source change that makes the
+    compiler accept another argument, another count or another attribute changes the table and re-opens this proof. -/
+theorem attribute_table_as_specified :
+    (Gen.attributes.map fun r => (r.directive, r.repeatable, r.minArgs, r.maxArgs, r.lintArgs)) =
+      [("allow", true, 1, none, true), ("compress", false, 1, none, false), ("deprecated", false, 0, some 2, false),
+       ("oneway", false, 0, some 1, false), ("slicedFormat", false, 1, none, false)] ∧
+    (∀ r ∈ Gen.attributes, (r.directive = "compress" ∨ r.directive = "slicedFormat") →
+      ∀ x, x ∈ r.argLiterals ↔ (x = "Args" ∨ x = "Return")) ∧
+    (∀ r ∈ Gen.attributes, r.directive ≠ "compress" → r.directive ≠ "slicedFormat" → r.argLiterals = []) ∧
+    Gen.attributePrefix = "" := by
+  refine ⟨by decide, ?_, by decide, rfl⟩
+  intro r hr hd x
+  simp only [Gen.attributes, List.mem_cons, List.mem_nil_iff, or_false] at hr
+  rcases hr with rfl | rfl | rfl | rfl | rfl <;> simp_all
+
 /-- the former D-04b witness violates the placement rule and is now rejected with the invalid-attribute code -/
 theorem attrOnUnderlying_rejected :
     ¬ (placementRule true).Holds attrOnUnderlying ∧ validate attrOnUnderlying = [code "InvalidAttribute"] := by
@@ -805,4 +823,5 @@ end Slicec.C04
 #print axioms Slicec.C04.dupEnumeratorField_rejected
 #print axioms Slicec.C04.attrOnUnderlying_rejected
 #print axioms Slicec.C04.moduleNameClash_rejected
+#print axioms Slicec.C04.attribute_table_as_specified
 #print axioms Slicec.C04.accept_iff
